@@ -216,7 +216,9 @@ def run(ctx):
         import shutil
 
         shutil.rmtree(tmpdir, ignore_errors=True)
-    bad = core.tlc_judge(ctx, "ScanIO", ioc, recs)
+    # canary: a real event with one reported offset shifted by one must be rejected
+    canary = next((dict(e, out=[e["out"][0] + 1] + e["out"][1:]) for e in recs if e["op"] == "scan" and e["out"]), None)
+    bad = core.tlc_judge(ctx, "ScanIO", ioc, recs, canary=canary)
     for i, failed in bad:
         e = recs[i]
         op = "iter_find_needle" if e["op"] == "scan" else "iter_artifactkit_payloads"
